@@ -125,6 +125,68 @@ sys.exit(0 if got == {repr(exp)!r} else 1)
             ty = d.hugr.port_type(p)
             if not (isinstance(kind, T.ValueKind) and kind.ty == ty):
                 fail("port_type = payload of the port's kind", f"hugr.port_type({p}) vs hugr.port_kind({p})", kind, ty)
+    # ---- operations backed by an extension definition: the signature is the definition's type scheme instantiated
+    #      with the operation's own type arguments (the specification of the operation)
+    import json as _json
+    from hugr.std.int import _DivModDef
+    from hugr.std.logic import Not
+
+    def subst_row(row, args):
+        out = []
+        for t in row:
+            if isinstance(t, T.RowVariable):
+                a = args[t.idx]
+                out += [e.ty for e in a.elems]
+            else:
+                out.append(subst(t, args))
+        return out
+
+    def subst_arg(a, args):
+        if isinstance(a, T.VariableArg):
+            return args[a.idx]
+        if isinstance(a, T.TypeTypeArg):
+            return T.TypeTypeArg(subst(a.ty, args))
+        if isinstance(a, T.SequenceArg):
+            return T.SequenceArg([subst_arg(x, args) for x in a.elems])
+        return a
+
+    def subst(t, args):
+        if isinstance(t, T.Variable):
+            return args[t.idx].ty
+        if isinstance(t, T.ExtType):
+            return T.ExtType(t.type_def, [subst_arg(a, args) for a in t.args])
+        if isinstance(t, T.Opaque):
+            return T.Opaque(t.id, t.bound, [subst_arg(a, args) for a in t.args], t.extension)
+        if isinstance(t, T.UnitSum):
+            return t
+        if isinstance(t, T.Sum):
+            return T.Sum([subst_row(r_, args) for r_ in t.variant_rows])
+        if isinstance(t, T.FunctionType):
+            return T.FunctionType(subst_row(t.input, args), subst_row(t.output, args), list(t.runtime_reqs))
+        return t
+
+    def enc_row(row):
+        return [_json.loads(t._to_serial_root().model_dump_json()) for t in row]
+    ext_ops = [(f"DivMod(width={w})", _DivModDef(width=w)) for w in range(0, 7)] + [("Not", Not), ("Noop(Bool)", O.Noop(B)), ("Noop(Qubit)", O.Noop(Q))]
+    for rw in rows:
+        ext_ops += [(f"MakeTuple({r(rw)})", O.MakeTuple(list(rw))), (f"UnpackTuple({r(rw)})", O.UnpackTuple(list(rw)))]
+    for nm, op in ext_ops:
+        ev += 1
+        scheme = op.op_def().signature.poly_func
+        if scheme is None:
+            continue
+        targs = op.type_args()
+        if len(targs) != len(scheme.params):
+            fail("extension-backed operation: one type argument per parameter of its definition", nm, len(scheme.params), len(targs))
+            continue
+        want_in, want_out = subst_row(scheme.body.input, targs), subst_row(scheme.body.output, targs)
+        sig = op.outer_signature()
+        if enc_row(sig.input) != enc_row(want_in) or enc_row(sig.output) != enc_row(want_out) or op.num_out != len(want_out):
+            fail("extension-backed operation: signature = the definition's scheme instantiated with the operation's type arguments", nm, (want_in, want_out), (sig.input, sig.output))
+        else:
+            for k, t in enumerate(want_in):
+                if enc_row([op.port_type(InPort(n, k))]) != enc_row([t]):
+                    fail("extension-backed operation: port types follow the instantiated scheme", f"{nm} input {k}", t, op.port_type(InPort(n, k)))
     emit({
         "name": "bounded.c06",
         "kind": "small-scope table check of every operation class (differential check of the proof; stands in for Hugr.port_type / MakeTuple-UnpackTuple chain)",
